@@ -282,3 +282,90 @@ def envs_at(g: CFG, node: Node, facts: Facts, limit: int = 64) -> list[dict]:
                 seen.add(k)
                 dq.append((e.dst, k[1]))
     return out or [{}]
+
+
+def unrolled_view(fn: ast.AST, max_elts: int = 6) -> ast.AST:
+    """A private copy of function *fn* in which every `for x in (a, b, c): body` over a short literal tuple / list of plain names is replaced
+    by body[x:=a]; body[x:=b]; body[x:=c] (only when the body neither rebinds x nor breaks / continues that loop).  Statements of the copy are
+    renumbered in execution-text order so that "precedes" comparisons by lineno keep working between the copies; every node keeps its source
+    line in `orig_lineno` (used for reports)."""
+    import copy
+
+    from .loader import set_parents
+
+    saved = getattr(fn, '_parent', None)
+    try:
+        if saved is not None:
+            fn._parent = None  # type: ignore[attr-defined]
+        new = copy.deepcopy(fn)
+    finally:
+        if saved is not None:
+            fn._parent = saved  # type: ignore[attr-defined]
+    for n in ast.walk(new):
+        if hasattr(n, 'lineno'):
+            n.orig_lineno = n.lineno  # type: ignore[attr-defined]
+
+    def loop_level(stmts):
+        for st in stmts:
+            yield st
+            for f in ('body', 'orelse', 'finalbody', 'handlers'):
+                sub = getattr(st, f, None)
+                if sub and not isinstance(st, (ast.For, ast.AsyncFor, ast.While) + FuncNode + (ast.ClassDef,)):
+                    yield from loop_level([x for x in sub if isinstance(x, (ast.stmt, ast.ExceptHandler))])
+
+    class Sub(ast.NodeTransformer):
+        def __init__(self, name, repl):
+            self.name, self.repl = name, repl
+
+        def visit_Name(self, node):
+            if node.id == self.name and isinstance(node.ctx, ast.Load):
+                r = copy.deepcopy(self.repl)
+                for x in ast.walk(r):
+                    if hasattr(node, 'orig_lineno'):
+                        x.orig_lineno = node.orig_lineno  # type: ignore[attr-defined]
+                return ast.copy_location(r, node)
+            return node
+
+    class Unroll(ast.NodeTransformer):
+        def visit_For(self, node):
+            self.generic_visit(node)
+            it = node.iter
+            if not (isinstance(it, (ast.Tuple, ast.List)) and 1 <= len(it.elts) <= max_elts and isinstance(node.target, ast.Name) and not node.orelse):
+                return node
+            if not all(isinstance(e, (ast.Name, ast.Constant)) or (isinstance(e, ast.Attribute) and isinstance(e.value, ast.Name)) for e in it.elts):
+                return node
+            if any(isinstance(x, (ast.Break, ast.Continue)) for x in loop_level(node.body)):
+                return node
+            if any(isinstance(x, ast.Name) and x.id == node.target.id and isinstance(x.ctx, (ast.Store, ast.Del)) for b in node.body for x in ast.walk(b)):
+                return node
+            out = []
+            for e in it.elts:
+                for st in node.body:
+                    out.append(Sub(node.target.id, e).visit(copy.deepcopy(st)))
+            return out
+
+    new = Unroll().visit(new)
+    counter = [0]
+
+    def renumber(stmts):
+        for st in stmts:
+            counter[0] += 1
+            ln = counter[0]
+            nested = []
+            for f, v in ast.iter_fields(st):
+                if f in ('body', 'orelse', 'finalbody', 'handlers') and isinstance(v, list):
+                    nested.append(v)
+                    continue
+                for x in ([v] if isinstance(v, ast.AST) else [y for y in v if isinstance(y, ast.AST)] if isinstance(v, list) else []):
+                    for y in ast.walk(x):
+                        if hasattr(y, 'lineno'):
+                            y.lineno = ln
+                            y.end_lineno = ln
+            st.lineno = ln
+            st.end_lineno = ln
+            for v in nested:
+                renumber(v)
+
+    renumber(new.body)
+    set_parents(new)
+    return new
